@@ -137,31 +137,43 @@ def h_qubit_op(env, words, nq, order, steps, control, time_mode, use_trotterize,
                      f"phase*unitary(trotterize order={order} steps={steps} control={control}) == product formula")
 
 
-def h_fermion_op(env, nq, mapping, order, steps, canary=False):
-    """fermionic input: trotterize maps with the real fermion_to_qubit_mapping; oracle maps independently
-    through openfermion's own jordan_wigner / bravyi_kitaev on the scaled operator and uses term order of the result"""
+def h_fermion_op(env, nq, mapping, order, steps, time_mode="scalar", canary=False):
+    """fermionic input: trotterize maps with the real fermion_to_qubit_mapping (C03 checks the mapping itself); the oracle
+    maps the time-scaled operator sum_k c_k t_k T_k and exponentiates the result by the reference product formula"""
     from tangelo.toolboxes.operators import FermionOperator
     from tangelo.toolboxes.ansatz_generator.ansatz_utils import trotterize
     from tangelo.toolboxes.qubit_mappings.mapping_transform import fermion_to_qubit_mapping
     a = env.real("a", lo=-2, hi=2)
     b = env.real("b", lo=-2, hi=2)
-    t = env.real("t", lo=-2, hi=2)
     # hermitian: a (p^q + q^p) + b n_r
-    op = FermionOperator(((0, 1), (1, 0)), a) + FermionOperator(((1, 1), (0, 0)), a) + FermionOperator(((2 % nq, 1), (2 % nq, 0)), b)
-    circ, phase = trotterize(op, time=t, n_trotter_steps=steps, trotter_order=order, return_phase=True,
+    terms = [(((0, 1), (1, 0)), a), (((1, 1), (0, 0)), a), (((2 % nq, 1), (2 % nq, 0)), b)]
+    op = FermionOperator()
+    for t_, c in terms:
+        op += FermionOperator(t_, c)
+    if time_mode == "scalar":
+        t = env.real("t", lo=-2, hi=2)
+        time = t
+        times = {t_: t for t_, _ in terms}
+    else:
+        # equal times for the two hermitian-conjugate hopping terms (keeps the scaled operator Hermitian), another for n_r
+        t1, t2 = env.real("t1", lo=-2, hi=2), env.real("t2", lo=-2, hi=2)
+        times = {terms[0][0]: t1, terms[1][0]: t1, terms[2][0]: t2}
+        time = dict(times)
+    circ, phase = trotterize(op, time=time, n_trotter_steps=steps, trotter_order=order, return_phase=True,
                              mapping_options={"qubit_mapping": mapping, "n_spinorbitals": nq})
     U = R.unitary(circ._gates, nq)
     U = [[phase * x for x in col] for col in U]
-    qop = fermion_to_qubit_mapping(op, mapping, n_spinorbitals=nq)
-    # all terms of these images commute pairwise?  not in general -> compare with the product formula in the
-    # mapped operator's own term order (the documented behaviour), using refsem exponentials
-    items = [(w, R.C(c).real * t) for w, c in qop.terms.items()]
+    scaled = FermionOperator()
+    for t_, c in terms:
+        scaled += FermionOperator(t_, c * times[t_])
+    qop = fermion_to_qubit_mapping(scaled, mapping, n_spinorbitals=nq)
+    items = [(w, R.C(c).real) for w, c in qop.terms.items()]
     if canary:
         items = [(w, -x) for w, x in items]
     one = suzuki(items, order, R.C(1) / steps)
     S = product_formula(one * steps, nq, [])
     env.check_vec_eq([x for col in U for x in col], [x for col in S for x in col],
-                     f"fermionic trotterize({mapping}) == product formula of the mapped operator")
+                     f"fermionic trotterize({mapping}, time={time_mode}) == product formula of the mapped, time-scaled operator")
 
 
 def shapes(tier, seed):
@@ -227,6 +239,8 @@ def shapes(tier, seed):
                      modules=MODS, canary=True))
     for mapping in ("jw", "bk"):
         for (order, steps) in (((1, 1), (2, 2)) if tier == "quick" else ((1, 1), (1, 2), (2, 1), (2, 2))):
-            out.append(Shape(f"fermionop/{mapping}/o{order}s{steps}", h_fermion_op, dict(nq=3, mapping=mapping, order=order, steps=steps),
-                             modules=MODS + ("tangelo.toolboxes.qubit_mappings.mapping_transform",)))
+            for tm in ("scalar", "dict"):
+                out.append(Shape(f"fermionop/{mapping}/o{order}s{steps}/{tm}", h_fermion_op,
+                                 dict(nq=3, mapping=mapping, order=order, steps=steps, time_mode=tm),
+                                 modules=MODS + ("tangelo.toolboxes.qubit_mappings.mapping_transform",)))
     return out
